@@ -1297,7 +1297,10 @@ func (m *Manager) handleMessage(tm *TaskmanMessage) error {
 				mesosState == mesos.TASK_STARTING ||
 				mesosState == mesos.TASK_RUNNING ||
 				mesosState == mesos.TASK_KILLING ||
-				mesosState == mesos.TASK_UNKNOWN) {
+				mesosState == mesos.TASK_UNKNOWN) &&
+			m.GetTask(mesosStatus.GetTaskID().Value) == nil {
+			// Only tasks we do not know (left over from a previous life of the core) are killed:
+			// a reconciliation answer about a task in the roster is an ordinary status update.
 			killCall := calls.Kill(mesosStatus.TaskID.GetValue(), mesosStatus.AgentID.GetValue())
 			calls.CallNoData(context.TODO(), m.schedulerState.cli, killCall)
 		} else {
